@@ -70,8 +70,9 @@ fn run(c: &Value) -> Result<(), (String, String)> {
     for (idx, want) in c["out"].as_array().unwrap().iter().enumerate() {
         let conn = idx as u64 + 1;
         let k = idx;
-        let want: Vec<Entry> = want.as_array().unwrap().iter().map(|x| if x[0] == "notify" { Entry::Notify } else { Entry::Full(1) }).collect();
-        let got = outs.get(&conn).map(|b| parse_out(b)).unwrap_or_default();
+        let want: Vec<Entry> = want.as_array().unwrap().iter().map(|x| if x[0] == "notify" { Entry::Notify(0) } else { Entry::Full(1) }).collect();
+        // (which version octet a Serial Notify carries is C08's business)
+        let got: Vec<Entry> = outs.get(&conn).map(|b| parse_out(b)).unwrap_or_default().into_iter().map(|e| if let Entry::Notify(_) = e { Entry::Notify(0) } else { e }).collect();
         if got != want {
             return Err((format!("fanout:out:{}", if got.len() < want.len() { "missing" } else { "different" }),
                         format!("connection {conn} wrote {got:?}, specification {want:?} (events {}, settles after {marks:?})", c["env"])));
